@@ -3,7 +3,8 @@ from bounded.cli_matrix import PROGRAMS, configs, run_cli_matrix
 from checks.common import CheckRun
 
 EXPLANATION = (
-    "K9. B tier (bounded): the real CLIs (python -m dsl_compiler.cli, python -m dsl_compiler, compile.py) are run as "
+    "K9. P tier: the call-site precondition of the (assumed) draftsman serialisation contract — every to_dict / to_string "
+    "call in cli.py and compile.py passes version=blueprint.version_tuple() — is discharged on the AST of the real files. B tier (bounded): the real CLIs (python -m dsl_compiler.cli, python -m dsl_compiler, compile.py) are run as "
     "subprocesses over {file, -i} x {string, --json} x {stdout, -o} x {default, --no-optimize, --power-poles, --name}; the "
     "emitted text is decoded with the standard library (base64 + zlib + JSON / JSON); every combinator must carry its "
     "configuration, wires must be present, all invocations of one program must describe the same configured entities, and "
@@ -14,6 +15,12 @@ EXPLANATION = (
 
 def run(tier):
     cr = CheckRun("C07", tier, "other", EXPLANATION, "DESIGN §4 C07")
+    from pyvc import guards
+    for f in ("dsl_compiler/cli.py", "compile.py"):
+        for m in ("to_dict", "to_string"):
+            cr.ext_obligations.append(guards.call_has_keyword(f, m, "version", "blueprint.version_tuple()"))
+    cr.trusted.append("ASSUMED contract on draftsman 4.0.0: Blueprint.to_dict/to_string(version=v) is lossless for the 2.0 fields "
+                      "iff the converter selected by v is the 2.0 one (measured: default 2.1 converter drops control_behavior)")
     cr.bounded_check(run_cli_matrix, "cli-matrix", tier,
                      f"{len(PROGRAMS)} programs x {len(configs(tier))} invocation modes" + (" (every third pairing in quick)" if tier == "quick" else ""),
                      cr.known)
